@@ -16,6 +16,8 @@ import (
 	"math/rand"
 	"os"
 	"strings"
+	"sync"
+	"time"
 
 	"github.com/paulsonkoly/chess-3/board"
 	. "github.com/paulsonkoly/chess-3/chess"
@@ -402,7 +404,10 @@ func (r *rec) transp(corpus []string) {
 			b.MakeMove(lm[r.rng.Intn(len(lm))])
 		}
 		rootFen := b.FEN()
-		root, _ := board.FromFEN(rootFen)
+		root, err := board.FromFEN(rootFen)
+		if err != nil {
+			continue // clock beyond what a FEN may carry
+		}
 		// line A: a1 b1 a2 b2 (random legal); line B: a2 b1 a1 b2 and a1 b2 a2 b1 if playable
 		var ma []move.Move
 		bb, _ := board.FromFEN(rootFen)
@@ -582,17 +587,78 @@ func (r *rec) script(path string) {
 
 // ---------------------------------------------------------------- UCI paths
 
-// runUCI feeds a script to a real uci.Driver and returns its output lines.
+// lineWriter collects driver output and lets the recorder wait for a line with a given prefix.
+type lineWriter struct {
+	mu    sync.Mutex
+	buf   []byte
+	lines []string
+	ch    chan struct{}
+}
+
+func (w *lineWriter) Write(p []byte) (int, error) {
+	w.mu.Lock()
+	w.buf = append(w.buf, p...)
+	for {
+		i := bytes.IndexByte(w.buf, '\n')
+		if i < 0 {
+			break
+		}
+		w.lines = append(w.lines, string(w.buf[:i]))
+		w.buf = w.buf[i+1:]
+	}
+	w.mu.Unlock()
+	select {
+	case w.ch <- struct{}{}:
+	default:
+	}
+	return len(p), nil
+}
+
+func (w *lineWriter) has(prefix string) bool {
+	w.mu.Lock()
+	defer w.mu.Unlock()
+	for _, l := range w.lines {
+		if strings.HasPrefix(l, prefix) {
+			return true
+		}
+	}
+	return false
+}
+
+// runUCI feeds commands to a real uci.Driver and returns its output lines. A command of the form
+// "@wait <prefix>" blocks until an output line with that prefix has been written (so that e.g. `quit`
+// cannot abort a search whose completion is being observed).
 func runUCI(script string, s uci.Search) []string {
-	var out bytes.Buffer
-	opts := []uci.DriverOpt{uci.WithInput(strings.NewReader(script)), uci.WithOutput(&out), uci.WithError(io.Discard)}
+	pr, pw := io.Pipe()
+	out := &lineWriter{ch: make(chan struct{}, 1)}
+	opts := []uci.DriverOpt{uci.WithInput(pr), uci.WithOutput(out), uci.WithError(io.Discard)}
 	if s != nil {
 		opts = append(opts, uci.WithSearch(s))
 	}
 	d := uci.NewDriver(opts...)
-	d.Run()
-	lines := strings.Split(strings.TrimRight(out.String(), "\n"), "\n")
-	return lines
+	done := make(chan struct{})
+	go func() { d.Run(); close(done) }()
+	for _, line := range strings.Split(strings.TrimRight(script, "\n"), "\n") {
+		if strings.HasPrefix(line, "@wait ") {
+			prefix := strings.TrimPrefix(line, "@wait ")
+			deadline := time.After(60 * time.Second)
+			for !out.has(prefix) {
+				select {
+				case <-out.ch:
+				case <-time.After(20 * time.Millisecond):
+				case <-deadline:
+					panic("uci driver did not answer: " + prefix)
+				}
+			}
+			continue
+		}
+		io.WriteString(pw, line+"\n")
+	}
+	pw.Close()
+	<-done
+	out.mu.Lock()
+	defer out.mu.Unlock()
+	return append([]string(nil), out.lines...)
 }
 
 func moveText(ms []move.Move) string {
@@ -674,7 +740,7 @@ func (r *rec) uciEvent(kind, fen string, ms []move.Move) {
 		r.emit(&Ev{Ev: "uciPosition", Fen: fen, Root: &rp, Moves: &enc, FenOut: lines[len(lines)-1]})
 	case "uciRep":
 		s := search.New(1 * transp.MegaBytes)
-		lines := runUCI(cmd+"\ngo depth 1\nquit\n", s)
+		lines := runUCI(cmd+"\ngo depth 1\n@wait bestmove\nquit\n", s)
 		best := ""
 		for _, l := range lines {
 			if strings.HasPrefix(l, "bestmove ") {
